@@ -463,10 +463,10 @@ pub fn plans_for(prop: &str, tier: Tier) -> Vec<Plan> {
     let pick = |names: &[&str]| -> Vec<Lens> { names.iter().map(|n| lens::lens(n)).collect() };
     let base: Vec<Lens> = match prop {
         "C07" => pick(&["A3", "A1a", "A1b"]),
-        "C13" => pick(&["A2-", "A1a", "A1b", "A3", "A4", "A5a", "A5b", "A6"]),
+        "C13" => pick(&["A2-", "A1a", "A1b", "A3", "A4", "A5a", "A5b", "A6", "A10"]),
         "C12" => pick(&["A6"]),
-        "C16" => pick(&["A1b", "A2-", "A2s", "A4", "A5b", "A6", "A7"]),
-        "C08" => pick(&["A7", "A2-", "A1b"]),
+        "C16" => pick(&["A1b", "A2-", "A2s", "A4", "A5b", "A6", "A7", "A10"]),
+        "C08" => pick(&["A7", "A2-", "A1b", "A10"]),
         "C18" => pick(&["A7"]),
         _ => all.clone(),
     };
